@@ -25,6 +25,16 @@ CHECKS = {
          'Every case of the C03 space is applied and rolled back; a BFS over apply-stacks (creates, deletes, mode changes, partial failures) checks the recorded pre-state after every rollback.',
          'Lib-level rollback is called with the direction of the application; driver-level rollback (renames, -R entries) is checked by the CLI sweeps as far as built.',
          '5/C04'),
+ 'C11': ('rqmc', 'model_checking',
+         'bounded-exhaustive enumeration of token sequences / numeric grid / token edits through the real parser and apply in crash-isolating shard subprocesses',
+         'All sequences of up to 4 (thorough 5) of 37 whole-line tokens (last one also truncated), the full 12^4 grid of boundary numbers in hunk headers and all <=2-token edits of 5 patch skeletons are parsed (strip 0/1/5) and, when they parse, applied and rolled back; any panic, abort, hang or oversized allocation is attributed to the one input in flight.',
+         'Covers syntactically meaningful line sequences, not arbitrary bytes. CLI-level totality (exit status 0/1) is covered by the workspace sweep as far as built (see evidence).',
+         '5/C11'),
+ 'C12': ('rqmc', 'model_checking',
+         'bounded-exhaustive enumeration of parseable inputs (token sequences, token edits, reference diffs x header dialects) through the real parse-write-parse-write',
+         'Every parseable input of the C11 sequence/edit spaces and every reference diff under 8 header dialects is written and re-parsed; file-patch fields, hunk sides and start lines must agree and the second write must be byte-identical.',
+         'Context/changed classification of lines is deliberately not compared (the writer re-derives it). KF-02 (vanishing no-op hunk-less entries) is recorded, not repaired.',
+         '5/C12'),
  'C20': ('rqmc', 'model_checking',
          'metamorphic bounded-exhaustive enumeration: same (file, patch) at all fuzz-limit pairs F<F\' on the real apply',
          'Every (file, patch) of the C02 and C03 spaces is run at limits 0..3; whenever it applies completely at F it must apply identically (content and per-hunk placement) at every F\'>F.',
